@@ -370,7 +370,7 @@ class C14(Check):
         'an empty example set (or take=0) may be rejected with an exception instead of giving zero interactions',
         'through Environments.from_supervised a Categorical label is one-hot encoded by Finalize: there only "exactly one offered action has reward 1, the same action for equal labels, different actions for different labels" is demanded (the encoding itself is C10)',
         'labels of mixed types, negative label_col indexes, rows without a label (other than a sparse numeric 0) and label_type values that are meaningless for the label kind (r on words, m on scalars) are outside the alphabet',
-        'text sources: only the plainest serialisation of each format is used (format variety is C12); expected values have the types the readers document (csv: str, arff numeric: float, libsvm: int key -> float, labels: list of str)',
+        'text sources: only the plainest serialisation of each format is used (format variety is C12), except one own serialisation per csv dialect option handed to CsvSource(**dialect); a finding that disappears when the dialect option / the path route is removed from the case is reported under one key per route; expected values have the types the readers document (csv: str, arff numeric: float, libsvm: int key -> float, labels: list of str)',
         'regression from a text source: the expected label is float(text)',
         'second reads / re-use of an environment object are left to C04',
         'an Environments-level finding is reported only when the raw SupervisedSimulation read of the same case is clean (same root cause, one key)',
@@ -532,6 +532,15 @@ class C14(Check):
             else:
                 comp, mode, _ = key.split('|', 2)
                 key = f'{comp}|{mode}|only when take is given'
+        for field, mode in (('path', 'interactions are wrong only when the source is given as a path / url|text source from a str'),
+                            ('dl', 'interactions are wrong only when csv dialect options are given|CsvSource(**dialect)')):
+            if case.get(field) and '|take given' not in key and 'only when take' not in key:
+                base = {k: v for k, v in case.items() if k != field}
+                rep0, _, _ = self._eval(base)
+                if rep0:
+                    key, what = rep0[0]; case = base          # also wrong without it: go on with the simpler case
+                else:
+                    key = key.split('|', 1)[0] + '|' + mode; break
         decl, lt = case.get('decl', NA), case['lt']
         if decl not in (NA, None) and lt is not None and decl != lt:
             # classify: the same case with a source that declares the requested type decides whether the precedence between
@@ -602,7 +611,7 @@ class C14(Check):
             if level == 'raw':
                 ndist = len({repr(labs[j]) for j in idx})
                 if got and (kinds[0] != 'c' or ndist >= 2): nontrivial = True
-                outcomes.append(case_sig(d, lab, lt, got))
+                outcomes.append(case_sig(d + ':' + str(case.get('dl')) + ':' + str(case.get('path')), lab, lt, got))
         # an envs-level finding is reported only when the raw read of the same case is clean (one root cause, one key)
         report = results['raw'] or results['envs']
         return report[:1], nontrivial, outcomes
